@@ -29,8 +29,8 @@ from detsim.runner import Discard
 
 PROP = "C15"
 LEVEL = "fault_enumeration"
-RUNS = {"quick": 1600, "thorough": 60000}
-BUDGET_S = {"quick": 75, "thorough": 1200}
+RUNS = {"quick": 8000, "thorough": 120000}
+BUDGET_S = {"quick": 90, "thorough": 1500}
 EXHAUSTIVE = {"quick": False, "thorough": False}
 RULE = ("each run takes one seeded well-formed chart and enumerates every single corruption of "
         "its sync data at every position (kind x position); each evaluation is one corrupted file "
